@@ -263,6 +263,54 @@ theorem unparseClaimed_segments (fs : Compute.Fields) (ts : List (ParserInst × 
       | error e => rfl
       | ok more => rfl
 
+/-! ### the dispatch in general: any number of header parsers, any stack shape -/
+
+/-- `fs` is made of one run per parser of the stack, in stack order, followed by `rest`: every field of a run carries
+    that parser's name, and the field right after the run (if any) does not -/
+def RunsOf : Compute.Fields → List (ParserInst × String × Compute.Fields) → Compute.Fields → Prop
+  | fs, [], rest => fs = rest
+  | fs, t :: ts, rest => ∃ tail, fs = t.2.2 ++ tail ∧ (∀ x ∈ t.2.2, strContains x.1 t.2.1 = true) ∧
+      (∀ y, tail.head? = some y → strContains y.1 t.2.1 = false) ∧ RunsOf tail ts rest
+
+theorem takeWhile_run' {α} (p : α → Bool) (A R : List α) (hA : ∀ a ∈ A, p a = true) (hR : ∀ y, R.head? = some y → p y = false) :
+    (A ++ R).takeWhile p = A ∧ (A ++ R).dropWhile p = R := by
+  induction A with
+  | nil =>
+    cases R with
+    | nil => exact ⟨rfl, rfl⟩
+    | cons r rs => simp [List.takeWhile_cons, List.dropWhile_cons, hR r rfl]
+  | cons a as ih =>
+    have := ih (fun x hx => hA x (List.mem_cons_of_mem _ hx))
+    simp [List.takeWhile_cons, List.dropWhile_cons, hA a (by simp), this.1, this.2]
+
+theorem runs_segs (fs : Compute.Fields) (ts : List (ParserInst × String × Compute.Fields)) (rest : Compute.Fields) (h : RunsOf fs ts rest) :
+    SegsOf fs ts ∧ leftOver fs ts = rest := by
+  induction ts generalizing fs with
+  | nil => exact ⟨trivial, h⟩
+  | cons t ts ih =>
+    obtain ⟨tail, h1, h2, h3, h4⟩ := h
+    have r := takeWhile_run' (fun f : String × ABuf => strContains f.1 t.2.1) t.2.2 tail h2 h3
+    subst h1
+    obtain ⟨i1, i2⟩ := ih tail h4
+    exact ⟨⟨r.1, by rw [r.2]; exact i1⟩, by simp only [leftOver, r.2]; exact i2⟩
+
+/-- `PacketParser.unparse` on any field list that is made of one run per header parser: segment by segment, the rest
+    unchanged — any number of parsers, classes repeated or not -/
+theorem packetUnparse_runs (ts : List (ParserInst × String × Compute.Fields)) (fs rest : Compute.Fields)
+    (hn : (ts.map (·.1)).mapM parserNameOf = .ok (ts.map (·.2.1))) (h : RunsOf fs ts rest) :
+    packetUnparse (ts.map (·.1)) fs = (unparseSegs (ts.map fun t => (t.1, t.2.2))).map (· ++ rest) := by
+  obtain ⟨h1, h2⟩ := runs_segs fs ts rest h
+  unfold packetUnparse
+  have hz : ∀ l : List (ParserInst × String × Compute.Fields), (l.map (·.1)).zip (l.map (·.2.1)) = l.map (fun t => (t.1, t.2.1)) := by
+    intro l
+    induction l with
+    | nil => rfl
+    | cons t l ih => simp only [List.map_cons, List.zip_cons_cons, ih]
+  simp only [hn, bind, Except.bind, hz ts, unparseClaimed_segments fs ts h1, h2]
+  cases unparseSegs (ts.map fun t => (t.1, t.2.2)) with
+  | error e => rfl
+  | ok out => rfl
+
 /-! ### nothing lost, nothing duplicated -/
 
 /-- a parser whose `unparse` is the base-class identity (everything but a CoAP parser in semantic mode) -/
